@@ -103,9 +103,52 @@ def run_objects(case, res):
     res["sample"] = dict(case)
 
 
+def run_shared(case, res):
+    """successive candidate fields built on ONE set of media / pipe / borehole objects with one system flow (what a search does):
+    every exchanger must carry V/N, whatever was built before it"""
+    from ghedesigner.borehole import GHEBorehole
+    from ghedesigner.enums import TimestepType
+
+    global _LOADS
+    if _LOADS is None:
+        _LOADS = loadgen.atlanta_like(0.2)
+    pipe, fluid, vsys = case["pipe"], tuple(case["fluid"]), case["v_sys"]
+    m = ghe_factory.parts(pipe=pipe, fluid=fluid)
+    bh = GHEBorehole(97.5, 2.0, 0.075, x=0.0, y=0.0)
+    for k, n in enumerate(case["Ns"]):
+        res["evals"] += 1
+        c1 = dict(case, Ns=case["Ns"][:k + 1])
+        coords = [(5.0 * (j % 20), 5.0 * (j // 20)) for j in range(n)]
+        b = 5.0 if n > 1 else 0.075
+        loads = [x * n for x in _LOADS]
+        g = ghe_factory.make_ghe(coords, pipe=pipe, H=97.5, system_flow=vsys, fluid=fluid, gfunc=ghe_factory.table_gfunction(coords, b, HEIGHTS, 0.075), loads=loads, shared=(m, bh))
+        f = ghe_factory.make_ghe(coords, pipe=pipe, H=97.5, system_flow=vsys, fluid=fluid, gfunc=ghe_factory.table_gfunction(coords, b, HEIGHTS, 0.075), loads=loads)
+        want = vsys / n * m._fluid.rho / 1000.0
+        for mm in (g.m_flow_borehole, g.bhe.m_flow_borehole):
+            if abs(mm - want) > 1e-12 * want:
+                res["violations"].append(core.viol("mass_flow_per_borehole_wrong", c1, observed=mm, expected=want, msg=f"candidate #{k} ({n} boreholes) on shared media objects, system flow {vsys}: "
+                                                   f"per-borehole mass flow {mm}, expected {want}", spec="system-shared", cls="GHE"))
+                break
+        ra, rb_ = g.bhe.calc_effective_borehole_resistance(), f.bhe.calc_effective_borehole_resistance()
+        if abs(ra - rb_) > 1e-12 * abs(rb_):
+            res["violations"].append(core.viol("borehole_resistance_differs", c1, observed=[ra, rb_], msg=f"candidate #{k} ({n} boreholes) on shared media objects: R_b* {ra}, a freshly built twin has {rb_}", shared=True))
+        if n <= 100:
+            g.simulate(method=TimestepType.HYBRID)
+            f.simulate(method=TimestepType.HYBRID)
+            d = max(abs(float(x) - float(y)) for x, y in zip(g.hp_eft, f.hp_eft)) if len(g.hp_eft) == len(f.hp_eft) else float("inf")
+            if d > 1e-9:
+                res["violations"].append(core.viol("temperatures_differ", c1, observed=d, msg=f"candidate #{k} ({n} boreholes) on shared media objects: temperatures differ by {d} K from a freshly built twin's", shared=True))
+    res.outcome("shared_media_sequences")
+    res["nontrivial"] += 1
+    res["sample"] = dict(case)
+
+
 def run_case(case):
     res = core.Result(evals=0)
     fam = case.get("family")
+    if fam == "shared":
+        run_shared(case, res)
+        return res
     if fam == "arith":
         run_arith(case, res)
     elif fam == "objects":
@@ -126,6 +169,9 @@ def main(run: core.Run, only=None):
     objs = [{"family": "objects", "N": n, "v": v, "pipe": p, "fluid": list(f), "simulate": (n <= 100 or not quick)}
             for n in ns for v in flows for f in fluids for p in PIPES]
     run.drive(objs, family="objects")
+    seqs = [[272, 289, 288, 306], [2, 3, 2, 1], [400, 399, 380, 361], [16, 17, 18, 16], [100, 99, 81, 90]]
+    shared = [{"family": "shared", "pipe": p, "fluid": list(f), "v_sys": v, "Ns": sq} for p in (PIPES if not quick else PIPES[:1] + PIPES[-1:]) for f in fluids[:1] for v in (31.2, 0.9) for sq in seqs]
+    run.drive(shared, family="shared-media-sequences")
     chunks = []
     for method in ("nearsquare", "rectangle"):
         for n in range(1, (33 if not quick else 13)):
@@ -145,5 +191,5 @@ def main(run: core.Run, only=None):
         bounds={"N": "1..400 (all) for the arithmetic part", "N_objects": ns, "flows_Lps": flows, "fluids": [f[0] for f in fluids], "pipes": PIPES},
         assumptions=["retrieve_flow only reads flow_type and V_flow of its record (it is called unbound on a minimal record)",
                      "temperatures are compared on a hand-built monotone g-function table, so N = 400 needs no pygfunction run"],
-        require_outcomes=("arith", "objects"),
+        require_outcomes=("arith", "objects", "shared_media_sequences"),
     )
